@@ -203,6 +203,9 @@ def run(ctx):
         link_lines, link_rej, _ = linetrace.validate(
             ctx, "Trace_Link", LINK_TR, lpath, "tr_link", lkey,
             what="link tap log", segment_op="reset")
+    import statustrace
+    ctx.cov.update(statustrace.validate(ctx, os.path.join(out, "c05status.ndjson"),
+                                        "tr_status", "lnc"))
     scen = "?"
     unmet = expects = 0
     for i, x in enumerate(lines):
